@@ -303,6 +303,17 @@ func (x *Exec) libCall(key string, fn *types.Func, call *ast.CallExpr, recvExpr 
 		x.W.AddFact(env.pc, And(Cmp(">=", a, IntLit(0)), Cmp(">=", n, IntLit(0)), Cmp("<=", Arith("+", a, n), ln),
 			T("(forall (("+q+" Int)) "+Implies(outside, T("(isTrimByte "+x.W.SeqAt(s, qi).S+")", SBool)).S+")", SBool),
 			Implies(Cmp(">", n, IntLit(0)), And(Not(isAsciiSp(x.W.SeqAt(r, IntLit(0)))), Not(isAsciiSp(x.W.SeqAt(r, Arith("-", n, IntLit(1)))))))))
+		// the same statement over absolute positions of the backing array (matches s'[q] of any other window s' of the
+		// same array: conservation arguments talk about positions of the whole text)
+		{
+			x.W.nfresh++
+			kq := fmt.Sprintf("k!%d", x.W.nfresh)
+			ki := T(kq, SInt)
+			off := x.W.SeqOff(s)
+			sel := Select(x.W.SeqBase(s), ki)
+			outsideAbs := And(Cmp("<=", off, ki), Cmp("<", ki, Arith("+", off, ln)), Or(Cmp("<", ki, Arith("+", off, a)), Cmp(">=", ki, Arith("+", off, Arith("+", a, n)))))
+			x.W.AddFact(env.pc, T("(forall (("+kq+" Int)) (! "+Implies(outsideAbs, T("(isTrimByte "+sel.S+")", SBool)).S+" :pattern ("+sel.S+")))", SBool))
+		}
 		x.W.Facts = append(x.W.Facts, "(forall ((b Int)) (=> (or (= b 9) (= b 10) (= b 11) (= b 12) (= b 13) (= b 32)) (isTrimByte b)))")
 		x.W.Facts = append(x.W.Facts, "(forall ((b Int)) (! (=> (isTrimByte b) (or (<= b 32) (>= b 128))) :pattern ((isTrimByte b))))")
 		if sf := x.P.Contracts.Specs["validUTF8"]; sf != nil && len(sf.Params) == 2 {
